@@ -424,15 +424,108 @@ func c18dpipe(steps int) *explore.Scenario {
 	return sc
 }
 
+// c18dpipeBlocked: the 1000-message buffer towards b is full, one more Write on a blocks, and then a is
+// closed (or b reads one message).  Closing a must release the blocked Write with an error and leave every
+// message that had been accepted readable at b, in order; a read at b must let the blocked Write through.
+func c18dpipeBlocked(closeA bool, bound int) *explore.Scenario {
+	name := "dpipe full, one Write blocked, then the peer reads one"
+	if closeA {
+		name = "dpipe full, one Write blocked, then the writing end is closed"
+	}
+	sc := &explore.Scenario{Name: name, Bound: bound}
+	sc.Cfg.Horizon = 10 * time.Second
+	sc.Make = func() (func(), func(*zzvsched.Exec) (string, *explore.Violation)) {
+		var viol *explore.Violation
+		fail := func(sig, format string, a ...any) {
+			if viol == nil {
+				viol = &explore.Violation{Sig: "C18 dpipe " + sig, Msg: name + ": " + fmt.Sprintf(format, a...)}
+			}
+		}
+		finished, blockedDone := false, false
+		var blockedErr error
+		body := func() {
+			a, b := dpipe.Pipe()
+			var want []string
+			for i := 0; i < 1000; i++ {
+				m := fmt.Sprintf("m%04d", i)
+				if _, err := a.Write([]byte(m)); err != nil {
+					fail("write", "Write #%d failed: %v", i, err)
+					return
+				}
+				want = append(want, m)
+			}
+			zzvsched.GoNamed("blocked-writer", func() {
+				_, blockedErr = a.Write([]byte("m1000"))
+				blockedDone = true
+			})
+			zzvsched.WaitIdle()
+			if blockedDone {
+				fail("capacity", "the 1001st Write did not block on the full buffer (err=%v)", blockedErr)
+				return
+			}
+			if closeA {
+				_ = a.Close()
+			} else {
+				buf := make([]byte, 16)
+				n, err := b.Read(buf)
+				if err != nil || string(buf[:n]) != want[0] {
+					fail("wrong-read", "first Read returned %q, %v; want %q", buf[:n], err, want[0])
+					return
+				}
+				want = append(want[1:], "m1000")
+			}
+			zzvsched.WaitIdle()
+			if !blockedDone {
+				fail("blocked-write-not-released", "the blocked Write is still blocked: %v", "see parked threads")
+				return
+			}
+			if closeA && blockedErr == nil {
+				want = append(want, "m1000") // it got through before the Close took effect: then it must arrive
+			}
+			if !closeA && blockedErr != nil {
+				fail("write", "the blocked Write failed although room was made: %v", blockedErr)
+				return
+			}
+			for i, w := range want {
+				buf := make([]byte, 16)
+				n, err := b.Read(buf) // a missing message leaves this Read blocked: reported as "the script blocked"
+				if err != nil || string(buf[:n]) != w {
+					fail("lost-or-reordered", "message %d read at the other end as %q (err %v), want %q: closing / unblocking one end must not affect what was written", i, buf[:n], err, w)
+					return
+				}
+			}
+			finished = true
+		}
+		check := func(ex *zzvsched.Exec) (string, *explore.Violation) {
+			out := fmt.Sprintf("blockedErr=%v", blockedErr)
+			if len(ex.Panics) > 0 {
+				return out, &explore.Violation{Sig: "C18 dpipe panic", Msg: name + ": panic: " + ex.Panics[0].Value}
+			}
+			if viol != nil {
+				return out, viol
+			}
+			if ex.HorizonHit {
+				return out + " HORIZON", nil
+			}
+			if !finished {
+				return out, &explore.Violation{Sig: "C18 dpipe blocked", Msg: fmt.Sprintf("%s: the script blocked: %v", name, ex.Parked)}
+			}
+			return out, nil
+		}
+		return body, check
+	}
+	return sc
+}
+
 func init() {
 	register(&Check{ID: "C18", YieldOnRelease: true,
 		Scenarios: func(tier string) []*explore.Scenario {
 			if tier == "quick" {
-				return []*explore.Scenario{c18bridge(4, 0, 8), c18bridge(3, 0, 2), c18bridge(3, 0, 0), c18bridge(2, 1, 8), c18dpipe(4)}
+				return []*explore.Scenario{c18bridge(4, 0, 8), c18bridge(3, 0, 2), c18bridge(3, 0, 0), c18bridge(2, 1, 8), c18dpipe(4), c18dpipeBlocked(true, 1), c18dpipeBlocked(false, 1)}
 			}
-			return []*explore.Scenario{c18bridge(5, 0, 8), c18bridge(4, 0, 2), c18bridge(3, 0, 0), c18bridge(3, 1, 8), c18dpipe(6)}
+			return []*explore.Scenario{c18bridge(5, 0, 8), c18bridge(4, 0, 2), c18bridge(3, 0, 0), c18bridge(3, 1, 8), c18dpipe(6), c18dpipeBlocked(true, 2), c18dpipeBlocked(false, 2)}
 		},
-		Rule: "Bridge: every script of the stated length over {writes of 0/1/3-byte messages in both directions, DropNextNWrites, ReorderNextNWrites (1,2,3; also repeated), Drop, Reorder, Filter (set and cleared), Tick, Process} with parked reader threads (slices of 0, 2, 8 bytes), compared per endpoint with a script interpreter; dpipe: every script over {writes both ways incl. empty, reads with short/long slices, Close of either end, filling the 1000-message buffer}",
+		Rule: "Bridge: every script of the stated length over {writes of 0/1/3-byte messages in both directions, DropNextNWrites, ReorderNextNWrites (1,2,3; also repeated), Drop, Reorder, Filter (set and cleared), Tick, Process} with parked reader threads (slices of 0, 2, 8 bytes), compared per endpoint with a script interpreter; dpipe: every script over {writes both ways incl. empty, reads with short/long slices, Close of either end, filling the 1000-message buffer}; plus: buffer full, one more Write blocked in its own thread, then the writing end is closed / the peer reads one",
 		Assumptions: []string{"precedence between a reorder window and a drop window or filter, and Drop with an offset beyond the queue, are not specified by the property: such steps are skipped; a drop window counts calls of Write (a write is delivered iff it is outside the window and passes the filter); ReorderNextNWrites re-armed while a window is partly collected: messages are compared as a multiset for that direction (nothing lost, duplicated or invented; order within the merged window unspecified)",
 			"a one-message reordering delivers that message (reversal of one element)"}})
 }
